@@ -81,6 +81,13 @@ type Env struct {
 
 	inCommit bool
 
+	// fault bookkeeping
+	MetaWrittenInCommit bool     // a meta page write was issued by the commit in progress
+	FailedFinalSync     bool     // the injected failure hit the fdatasync after the meta write
+	FailedRW            *rwState // the write transaction whose commit failed last
+	FailedTxid          int
+	ReadersAtFailure    int
+
 	// WriteTxClosed is true once a write transaction has ended since the last Open (Stats are refreshed then).
 	WriteTxClosed bool
 }
@@ -202,6 +209,9 @@ func (e *Env) onEvent(ev *bolt.VerifEvent) error {
 		return nil
 	}
 	e.EventN++
+	if ev.Op == bolt.VerifWriteAt && e.inCommit && e.PageSize > 0 && ev.Off < int64(2*e.PageSize) {
+		e.MetaWrittenInCommit = true
+	}
 	if e.RecordIO {
 		io := IOEvent{Kind: kind, Off: ev.Off, Size: ev.Size}
 		if ev.Op == bolt.VerifWriteAt {
@@ -217,6 +227,8 @@ func (e *Env) onEvent(ev *bolt.VerifEvent) error {
 	if e.FailAt > 0 && e.EventN == e.FailAt {
 		e.Failed = &IOEvent{Kind: kind, Off: ev.Off, Size: ev.Size}
 		e.FailedInTx = e.inCommit
+		e.FailedFinalSync = e.inCommit && kind == "S" && e.MetaWrittenInCommit
+		e.ReadersAtFailure = len(e.RO)
 		return fmt.Errorf("verif: injected failure of I/O event #%d (%s)", e.EventN, kind)
 	}
 	return nil
@@ -477,6 +489,7 @@ func (e *Env) apply(op Op) *Violation {
 		rw := e.RW
 		e.RW = nil
 		e.Mark("commit-start", rw.id)
+		e.MetaWrittenInCommit = false
 		e.inCommit = true
 		err := rw.tx.Commit()
 		e.inCommit = false
@@ -488,6 +501,7 @@ func (e *Env) apply(op Op) *Violation {
 				return Violf("commit of tx %d failed: %v", rw.id, err)
 			}
 			e.Label("commit-failed")
+			e.FailedRW, e.FailedTxid = rw, rw.id
 			if e.AfterFailure != nil {
 				return e.AfterFailure(e, err)
 			}
@@ -663,3 +677,30 @@ func (e *Env) ROTx(id int) *bolt.Tx {
 
 // ROTxid returns the txid reader id observes.
 func (e *Env) ROTxid(id int) int { return e.RO[id].id }
+
+// AdoptFailed makes the state of the write transaction whose commit returned an error the
+// committed state (legal only when the final sync failed after the meta page had been written).
+func (e *Env) AdoptFailed() {
+	if e.FailedRW == nil {
+		return
+	}
+	e.Committed = e.FailedRW.m
+	e.LastTxid = e.FailedRW.id
+	e.Versions[e.LastTxid] = e.Committed
+	e.FailedRW = nil
+}
+
+// CompareReaders dumps every open reader and compares it with its snapshot.
+func (e *Env) CompareReaders(when string) *Violation {
+	ids := make([]int, 0, len(e.RO))
+	for id := range e.RO {
+		ids = append(ids, id)
+	}
+	sort.Ints(ids)
+	for _, id := range ids {
+		if v := e.compareRO(e.RO[id], when); v != nil {
+			return v
+		}
+	}
+	return nil
+}
